@@ -78,6 +78,10 @@ func (dist *GeometricDistribution) LogPdf(r Scalar, x ConstScalar) error {
   if v := x.GetFloat64(); math.Floor(v) != v {
     return fmt.Errorf("value `%f' is not an integer", v)
   }
+  if v := x.GetFloat64(); v < 0.0 {
+    r.SetFloat64(math.Inf(-1))
+    return nil
+  }
 
   r.Mul(x, dist.p2)
   r.Add(r, dist.p1)
